@@ -31,6 +31,11 @@ CHECKS = {
             "Local chains of 3, 8 and 35 momentums; every batch of the stated family (extensions 1-3, known prefix + extension, duplicates, forks at depth 1,2,3,30,31 (thorough also 29) with shorter/equal/longer side chains, longer side chains with an invalid element at every position, gaps, alien chains, forged heights on a known parent, empty batch, each of 12 kinds of invalid element at every position of a 3-momentum extension followed by an overlapping valid re-delivery) is delivered through the real InsertChain. The node's final frontier and raw store must equal a fresh node fed the chain the reference decision prescribes, the returned index must be the position of the first failing momentum, nothing may panic.",
             "Validity of batch elements is known by construction; InsertChain is the seam below fetcher/downloader.",
             "5/C16"),
+    "C14": ("model_checking",
+            "explicit-state BFS over pool operation sequences vs list-per-account reference + exhaustive group-order enumeration for momentum content + preemption-bounded schedule exploration of real node threads under a controlled scheduler",
+            "Part A: all sequences of <=4 (quick) / <=6 (thorough) pool operations (add, competing add with higher/equal plasma ratio and smaller/larger hash, forced add, competitor of a confirmed block, orphan, four competing momentums confirming different subsets, re-delivery, rollback) on a real node; accept/refuse verdict, pooled chain per account and confirmed frontier compared with a list-per-account reference after every step, plus the single-chain invariant evaluated independently. Part B: real pools of 0..101 (thorough ..130) user blocks plus 0-4 contract batches (refund send + receive created by the real producer path); ALL orders of the per-account groups are fed to the real filter; result must respect the 100-block limit, be a per-account prefix and never split a batch. Part C: three thread scenarios on a real node (inserter vs readers; producing pillar vs sync InsertChain of a competing momentum at the same height vs reader; rollback vs readers), all schedules with <=1 (quick) / <=2 (thorough) preemptions over ~150-450 scheduling points per execution; no deadlock/panic, reader tuples must equal a state of the sequential execution, final raw store and consensus answers must equal a fresh node's replay of the chain the node reports.",
+            "Scheduling at lock/leveldb-write granularity via the vsync overlay; data races below that granularity are not decided by this check.",
+            "5/C14"),
 }
 
 NOT_BUILT_REASON = "check not built yet in this round (work in progress; see DESIGN.md section 5 for the planned model-checking formulation)"
